@@ -706,8 +706,9 @@ fn eval_strip(op: &str, f: &[&str]) -> CaseRec {
     let res = run_real(mode, &tcs, dir.path());
     let mut fails = vec![];
     let plain = out.iter().all(|b| *b == b'\n' || (0x20..0x7f).contains(b));
-    // script mode never strips (the per-test setting is not carried into the compiled test case)
-    if strip != Some(true) || plain || mode == "s" {
+    // script mode strips too since the fix `set_consistent!(strip_ansi_escaping)` (the setting is carried into the
+    // compiled test case; these payloads hold complete sequences only, so the divider lines are not touched)
+    if strip != Some(true) || plain {
         judge(mode, false, None, 80, &[p], &res, &mut fails);
     } else if let Ok(Ok(outs)) = &res {
         let so: Vec<u8> = (&outs[0].stdout).into();
